@@ -1,5 +1,6 @@
 import VibeProof.Model.View
 import VibeProof.Lemmas.Reindex
+import VibeProof.Lemmas.ViewChain
 /-
 C32 — views and CTEs behave as their defining query.
 -/
@@ -70,6 +71,104 @@ gives the same result -/
 theorem C32_depends_only_on_tables (d1 d2 : Db) (body outer : Core) (h : d1.tables = d2.tables) :
     evalDerived d1 body outer = evalDerived d2 body outer := by
   cases d1; cases d2; simp only at h; subst h; rfl
+
+
+/-! ### chains of definitions: `WITH a AS (…), b AS (… FROM a) …`, views over views -/
+
+/-- a chain of one definition is the derived-table form -/
+theorem C32_chain_single (db : Db) (b outer : Core) :
+    evalChain db [b] outer = evalDerived db b outer := rfl
+
+/-- a chain is evaluated definition by definition: the first body on the database, the rest of
+the chain on the database extended with its result (so a view over a view, `WITH a, b`, and the
+nested derived tables are one and the same evaluation) -/
+theorem C32_chain_unfold (db : Db) (b : Core) (rest : List Core) (outer : Core) :
+    evalChain db (b :: rest) outer
+      = (b.eval db).bind (fun rows => evalChain { tables := db.tables ++ [(b.select.length, rows)] } rest outer) := rfl
+
+/-- the renaming that moves table slot `n` out of the way: a query fixed by it does not refer to slot `n` -/
+def bump (n : Nat) : Nat → Nat := fun j => if j = n then n + 1 else j
+
+theorem eval_ignores_new_slot (db : Db) (x : Nat × List Row) (q : Core)
+    (hfix : q.reindex (bump db.tables.length) = q) :
+    q.eval { tables := db.tables ++ [x] } = q.eval db := by
+  have h := Core.eval_reindex (d1 := db) (d2 := { tables := db.tables ++ [x] }) (σ := bump db.tables.length) ?_ q
+  · rw [h, hfix]
+  · intro j
+    unfold bump
+    by_cases hj : j = db.tables.length
+    · subst hj; simp
+    · simp only [hj, if_false]
+      by_cases hlt : j < db.tables.length
+      · simp [List.getElem?_append_left hlt]
+      · have : db.tables.length < j := by omega
+        rw [List.getElem?_eq_none (by omega), List.getElem?_eq_none (by simp; omega)]
+
+/-- a definition nobody refers to changes nothing: `WITH u AS (body) outer` = `outer` whenever
+the body evaluates and `outer` does not mention `u` -/
+theorem C32_unused_definition (db : Db) (b outer : Core) (rows : List Row)
+    (hb : b.eval db = .ok rows) (hfix : outer.reindex (bump db.tables.length) = outer) :
+    evalChain db [b] outer = outer.eval db := by
+  simp only [evalChain, hb, bind, Except.bind]
+  exact eval_ignores_new_slot db _ outer hfix
+
+/-- two definitions that do not refer to each other may be written in either order (the outer
+query's references to them swapped accordingly) -/
+theorem C32_independent_definitions_commute (db : Db) (a b outer : Core) (ra rb : List Row)
+    (ha : a.eval db = .ok ra) (hb : b.eval db = .ok rb)
+    (hfa : a.reindex (bump db.tables.length) = a) (hfb : b.reindex (bump db.tables.length) = b) :
+    evalChain db [a, b] outer
+      = evalChain db [b, a] (outer.reindex (fun j =>
+          if j = db.tables.length then db.tables.length + 1
+          else if j = db.tables.length + 1 then db.tables.length else j)) := by
+  simp only [evalChain, ha, hb, bind, Except.bind, eval_ignores_new_slot db _ b hfb,
+    eval_ignores_new_slot db _ a hfa]
+  apply Core.eval_reindex
+  intro j
+  simp only [List.append_assoc, List.cons_append, List.nil_append]
+  by_cases h0 : j = db.tables.length
+  · subst h0; simp
+  · by_cases h1 : j = db.tables.length + 1
+    · subst h1; simp
+    · simp only [h0, h1, if_false]
+      by_cases hlt : j < db.tables.length
+      · simp [List.getElem?_append_left hlt]
+      · rw [List.getElem?_eq_none (by simp; omega), List.getElem?_eq_none (by simp; omega)]
+
+/-- a second definition that is `SELECT * FROM first` adds nothing: the chain collapses to the
+first definition (a view over a view, a CTE over a CTE, a CTE over a view) -/
+theorem C32_star_over_definition (db : Db) (b outer : Core) :
+    evalChain db [b, selectStar db.tables.length b.select.length] outer
+      = evalChain db [b] (outer.reindex (fun j => if j = db.tables.length + 1 then db.tables.length else j)) := by
+  simp only [evalChain, bind, Except.bind]
+  cases hb : b.eval db with
+  | error e => rfl
+  | ok rows =>
+    simp only []
+    have hw := Core.eval_width db b rows hb
+    have ht : ({ tables := db.tables ++ [(b.select.length, rows)] } : Db).tables[db.tables.length]? = some (b.select.length, rows) := by
+      simp
+    have := derived_wrap_identity { tables := db.tables ++ [(b.select.length, rows)] } db.tables.length b.select.length rows outer ht hw
+    simp only [evalDerived, selectStar_eval _ _ _ _ ht hw, bind, Except.bind, List.length_append, List.length_cons, List.length_nil] at this
+    have hl : (selectStar db.tables.length b.select.length).select.length = b.select.length := by
+      simp [selectStar]
+    rw [selectStar_eval _ _ _ _ ht hw]
+    simpa using this
+
+/-- non-vacuity of the "does not refer to the new slot" hypothesis and of the chain theorems:
+on a one-table database a query over table 0 is fixed by `bump 1`, and a two-step chain
+(`b` over table 0, `SELECT *` over `b`) evaluates to the rows of the first definition -/
+example :
+    let c : Core := { from_ := .table 0, where_ := none, group := none, select := [.col 0], distinct := false, orderBy := [], limit := none, offset := 0 }
+    c.reindex (bump 1) = c := by
+  rfl
+
+example :
+    let db : Db := { tables := [(1, [[.int 1], [.int 2]])] }
+    let b : Core := { from_ := .table 0, where_ := none, group := none, select := [.col 0], distinct := false, orderBy := [], limit := none, offset := 0 }
+    let o : Core := { from_ := .table 2, where_ := none, group := none, select := [.col 0], distinct := false, orderBy := [], limit := none, offset := 0 }
+    (match evalChain db [b, selectStar 1 1] o with | .ok rows => rows.length == 2 | .error _ => false) = true := by
+  decide
 
 /-- non-vacuity: a CTE named like a view (up to case) shadows it -/
 example :
